@@ -68,6 +68,14 @@ async fn run_async(ctx: &mut Ctx, opts: Opts) {
         c.request_timeout_ms = *ctx.tape.pick(&[1000u64, 200, 500, 2000]);
         c.request_retries = 1 + ctx.tape.choose(3) as u8;
         c.packet_filter = opts.c13 && ctx.tape.choose(2) == 1;
+        // tuning knobs: a session cache so small, or a session lifetime so short, that sessions are
+        // evicted or expire in the middle of the traffic
+        if ctx.tape.choose(4) == 0 {
+            c.session_capacity = 1 + ctx.tape.choose(2) as usize;
+        }
+        if ctx.tape.choose(4) == 0 {
+            c.session_timeout_ms = *ctx.tape.pick(&[300u64, 1500, 5000]);
+        }
         cfgs.push(c);
     }
     // identities must be distinct
@@ -105,13 +113,21 @@ async fn run_async(ctx: &mut Ctx, opts: Opts) {
         w.add_node(c.clone()).await;
     }
     ctx.ev(format!(
-        "cfg nodes={} fault_free={fault_free} load_ms={load_ms} bound_ms={bound_ms} profile={:?} slow_app={slow_app} silent%={silent_pct} wru_none%={whoareyou_none_pct} timeouts={:?} retries={:?} filter={:?}",
+        "cfg nodes={} fault_free={fault_free} load_ms={load_ms} bound_ms={bound_ms} profile={:?} slow_app={slow_app} silent%={silent_pct} wru_none%={whoareyou_none_pct} timeouts={:?} retries={:?} filter={:?} session_cap={:?} session_ttl={:?}",
         np + 1,
         w.profile,
         cfgs.iter().map(|c| c.request_timeout_ms).collect::<Vec<_>>(),
         cfgs.iter().map(|c| c.request_retries).collect::<Vec<_>>(),
-        cfgs.iter().map(|c| c.packet_filter).collect::<Vec<_>>()
+        cfgs.iter().map(|c| c.packet_filter).collect::<Vec<_>>(),
+        cfgs.iter().map(|c| c.session_capacity).collect::<Vec<_>>(),
+        cfgs.iter().map(|c| c.session_timeout_ms).collect::<Vec<_>>()
     ));
+    if cfgs.iter().any(|c| c.session_capacity < 1000) {
+        ctx.fault("tiny_session_cache");
+    }
+    if cfgs.iter().any(|c| c.session_timeout_ms < 86_400_000) {
+        ctx.fault("short_session_lifetime");
+    }
     // ---------- workload: requests at chosen times (mostly from node 0)
     let nreq = 1 + ctx.tape.choose(12) as u64;
     for _ in 0..nreq {
@@ -182,6 +198,10 @@ async fn run_async(ctx: &mut Ctx, opts: Opts) {
     // handler-internal requests seen on the wire: (node, peer, id) -> first transmission; and responses delivered
     let mut internal_tx: BTreeMap<(usize, usize, u64), u64> = BTreeMap::new();
     let mut resp_delivered: BTreeMap<(usize, usize, u64), u64> = BTreeMap::new();
+    let mut req_by_nonce: BTreeMap<[u8; 12], discv5::verif::RequestTx> = BTreeMap::new();
+    // nonce of each delivered response: a who-are-you query for that nonce means the receiver could not
+    // decrypt it (its session with the sender was gone), i.e. the response did not count
+    let mut resp_nonce: BTreeMap<(usize, [u8; 12]), (usize, usize, u64)> = BTreeMap::new();
 
     loop {
         if ctx.failed() {
@@ -189,6 +209,9 @@ async fn run_async(ctx: &mut Ctx, opts: Opts) {
         }
         let obs = w.next().await;
         w.absorb_keys();
+        for rt in discv5::verif::take_request_log() {
+            req_by_nonce.insert(rt.message_nonce, rt);
+        }
         if opts.c13 {
             for i in 0..w.nodes.len() {
                 let ex = w.exemptions(i);
@@ -218,6 +241,16 @@ async fn run_async(ctx: &mut Ctx, opts: Opts) {
                                         internal_tx.entry((from, to, id)).or_insert(now_ms());
                                     }
                                 }
+                            } else if matches!(d.kind, PacketKind::Message { .. }) {
+                                // a random packet: the request it stands for is known from the handler's
+                                // request-transmission log (H8)
+                                if let Some(rt) = req_by_nonce.get(&d.message_nonce) {
+                                    if rt.internal && rt.local == w.nodes[from].id {
+                                        ctx.count("sessionless_internal_requests");
+                                        let id = rid_num(&discv5::verif::RequestId(rt.request_id.clone()));
+                                        internal_tx.entry((from, to, id)).or_insert(now_ms());
+                                    }
+                                }
                             }
                         }
                     }
@@ -233,6 +266,7 @@ async fn run_async(ctx: &mut Ctx, opts: Opts) {
                                     if let Some((_, pt)) = w.decrypt_with_log(&d, &w.nodes[*from].id) {
                                         if let Some(Message::Response(rs)) = decode_message(&pt) {
                                             resp_delivered.entry((to, *from, rid_num(&rs.id))).or_insert(now_ms());
+                                            resp_nonce.insert((to, d.message_nonce), (to, *from, rid_num(&rs.id)));
                                         }
                                     }
                                 }
@@ -344,6 +378,10 @@ async fn run_async(ctx: &mut Ctx, opts: Opts) {
                 let t = now_ms();
                 match ev {
                     HandlerOut::WhoAreYou(wref) => {
+                        if let Some(k) = resp_nonce.remove(&(node, wref.verif_message_nonce())) {
+                            ctx.count("responses_not_decryptable_at_receiver");
+                            resp_delivered.remove(&k);
+                        }
                         let known = w.known_record(&wref.0.node_id);
                         let enr = if ctx.tape.choose(100) < whoareyou_none_pct { None } else { known };
                         let delay = if slow_app && t < stop_ms && ctx.tape.choose(3) == 0 {
